@@ -54,7 +54,15 @@ func runSolver(ctx context.Context, solver string, file string, timeoutS int, se
 	t0 := time.Now()
 	_ = cmd.Run()
 	secs := time.Since(t0).Seconds()
-	first := strings.TrimSpace(strings.SplitN(out.String(), "\n", 2)[0])
+	first := ""
+	for _, ln := range strings.Split(out.String(), "\n") {
+		ln = strings.TrimSpace(ln)
+		if ln == "" || strings.HasPrefix(ln, "WARNING") || strings.HasPrefix(ln, "(warning") {
+			continue
+		}
+		first = ln
+		break
+	}
 	res := "error: " + first
 	switch {
 	case first == "unsat" || first == "sat" || first == "unknown":
